@@ -155,3 +155,28 @@ ENGINES = [
 
 # properties not (yet) claimed; kept current as engines land
 NOT_APPLICABLE = {}
+
+
+SEQTX_RULE = ("SEQTX: every sequence of the stated depth over 13 symbols (begin / write / finish / drop on two transaction slots, atomic put, remove, reopen) after the stated "
+              "prefix; symbols not applicable in the current state are skipped; after every step the full observation is compared with the model (staging/ must hold exactly one "
+              "file per open transaction). states = distinct (map, open slots, log position); transitions = steps.")
+PLANT_RULE = ("PLANT: every subset (size <= 2 quick / 3 thorough) of an 11-item garbage/corruption menu planted into every closed store of every history up to the stated depth; "
+              "open_with_recover (verify on and off) must report exactly the independently computed sets; delete_orphans, delete_orphan and quarantine_orphans must remove exactly the garbage.")
+ENGINE_RULES = {
+    "seq": "SEQ: " + SEQ_RULE,
+    "seqtx": SEQTX_RULE,
+    "crash": "CRASH: " + CRASH_RULE,
+    "sched": "SCHED: " + SCHED_RULE,
+    "input": "INPUT: " + INPUT_RULE,
+    "plant": PLANT_RULE,
+    "power": PROPS["C09"]["rule"],
+    "fault": PROPS["C14"]["rule"],
+    "waldmg": PROPS["C10"]["rule"],
+    "open": None,  # per property (C11 / C19 differ)
+}
+for _pid, _spec in PROPS.items():
+    _parts = []
+    for _e in _spec["engines"]:
+        _r = ENGINE_RULES.get(_e["engine"])
+        _parts.append(_r if _r else _spec["rule"])
+    _spec["rule"] = "  ||  ".join(dict.fromkeys(_parts))
